@@ -413,6 +413,22 @@ func (r *Runner) execMacro(a Action) {
 		r.exec(Action{Op: "heal"}) // the old request can be delivered now
 		w.Advance(20*time.Millisecond, r.sample)
 		r.feat("stale-installsnapshot-from-a-deposed-leader")
+	case "restoreinflight":
+		// a user Restore arrives while several Apply calls are dispatched and not
+		// yet committed (the followers' answers are a moment late); the leader
+		// stays leader: every one of those calls must be answered
+		li, L := r.leader()
+		if L == nil {
+			return
+		}
+		r.exec(Action{Op: "isolate", Srv: li})
+		r.doApply(L, 2+a.N, 0)
+		w.Advance(time.Millisecond, r.sample)
+		r.doUserRestore(L, 3, a.Arg)
+		w.Advance(time.Millisecond, r.sample)
+		r.exec(Action{Op: "heal"})
+		w.Advance(60*time.Millisecond, r.sample)
+		r.feat("restore-with-calls-in-flight")
 	case "slowtransfer":
 		// a leadership transfer to a follower that is cut off and behind stays in
 		// progress for a whole election time-out; client calls made meanwhile are
